@@ -112,13 +112,19 @@ void harness(void) {
   sexp_context_top(ctx) = t;
   int ok = vm_export_grow_stack(ctx, (int)want);
   sexp ns = sexp_context_stack(ctx);
+  sexp_sint_t need = 2 * DEPTH > want ? 2 * DEPTH : want;
+  if (need > SEXP_MAX_STACK_SIZE) need = SEXP_MAX_STACK_SIZE;
   if (ok) {
-    KIT_ASSERT(ns != stk && sexp_pointer_tag(ns) == SEXP_STACK && ((sexp_sint_t)sexp_stack_length(ns) >= 2 * DEPTH && (sexp_sint_t)sexp_stack_length(ns) >= want) || SEXP_MAX_STACK_SIZE < want, "the new stack is at least twice as long and long enough");
+    KIT_ASSERT(ns != stk && sexp_pointer_tag(ns) == SEXP_STACK, "a successful growth installs a new stack object");
+    KIT_ASSERT((sexp_sint_t)sexp_stack_length(ns) > DEPTH, "a successful growth makes the stack strictly longer");
+    KIT_ASSERT((sexp_sint_t)sexp_stack_length(ns) >= need, "the new stack is at least twice as long and as long as requested, up to the maximum");
     KIT_ASSERT((sexp_sint_t)sexp_stack_length(ns) <= SEXP_MAX_STACK_SIZE, "the stack never exceeds the configured maximum");
     for (int q = 0; q < DEPTH; q++) if (q <= t) KIT_ASSERT(sexp_stack_data(ns)[q] == MARK(q), "live stack contents are preserved");
   } else {
     KIT_ASSERT(sexp_context_stack(ctx) == stk, "a refused growth leaves the stack in place");
+    KIT_ASSERT(DEPTH == SEXP_MAX_STACK_SIZE, "growth is refused only when the stack already has the maximum size");
   }
+  KIT_ASSERT(DEPTH < SEXP_MAX_STACK_SIZE || !ok, "a stack of the maximum size cannot grow: the caller must get the refusal (out-of-stack error path)");
 #endif
   KIT_WITNESS();
 }
